@@ -93,7 +93,9 @@ fn receive_any<const N: usize>(storage: &'static PduStorage<N, FRAME>) {
             assert!(slot(&pdu_loop, m).state == FrameState::RxDone);
             // declared payload copied byte-exact (probe one symbolic position of the datagram area)
             let plen = usize::from(u16::from_le_bytes([input[14], input[15]]) & 0x07ff);
-            assert!(plen >= 1 && 16 + plen <= len && plen <= FRAME - 16);
+            // the index byte must lie INSIDE the declared EtherCAT payload (length field >= 2): bytes
+            // after the declared payload (Ethernet padding) never identify a request
+            assert!(plen >= 2 && 16 + plen <= len && plen <= FRAME - 16);
             if probe >= 16 && probe < 16 + plen {
                 assert!(slot_byte(&pdu_loop, m, probe) == input[probe]);
             }
